@@ -1272,10 +1272,15 @@ func C01() int {
 	}
 	c01Expressions(r, deadline)
 	c01Skeletons(r, deadline)
+	xd, xn, ok := crossRun(r, 1, deadline)
+	if !ok {
+		return 2
+	}
+	r.Add("evaluations", xd)
 	ec, _ := r.Cov["expr_cells_distinct"].(int)
 	sc, _ := r.Cov["skeleton_programs_distinct"].(int)
-	r.Set("distinct_nontrivial", ec+sc)
-	r.Set("rule", "bounded-exhaustive enumeration: (E) every well-typed expression tree with k operator nodes over the stated leaf/operator alphabets, each under every listed valuation (a cell = tree x valuation; distinct by printed text+valuation; cells the model flags undefined, e.g. zero divisor, are skipped and counted); (S) every control skeleton with n constructs / depth d over the stated construct alphabet plus the simple-statement x context table (distinct by source text). Every case is transpiled by the real transpiler, run by the real bash and compared with the reference interpreter (stdout bytes, exit status, empty stderr).")
+	r.Set("distinct_nontrivial", ec+sc+xn)
+	r.Set("rule", "bounded-exhaustive enumeration: (E) every well-typed expression tree with k operator nodes over the stated leaf/operator alphabets, each under every listed valuation (a cell = tree x valuation; distinct by printed text+valuation; cells the model flags undefined, e.g. zero divisor, are skipped and counted); (S) every control skeleton with n constructs / depth d over the stated construct alphabet plus the simple-statement x context table (distinct by source text). (X) the scalar share of the cross-feature space (cross.go): every statement of a 74-statement alphabet in every context and every context nested in every context, and every ordered pair of statements in a context. Every case is transpiled by the real transpiler, run by the real bash and compared with the reference interpreter (stdout bytes, exit status, empty stderr).")
 	r.Assumef("reference interpreter tsmodel (independent of the repository code) is the meaning of the program; strings restricted to shell-neutral content (C08 owns the rest)")
 	r.Assumef("bash at /bin/bash, run with empty environment in an empty directory")
 	return finish(r)
